@@ -93,6 +93,10 @@ def pool(tier):
     # (appended last, so that the positions of everything above stay what they were)
     add(["x"], ["empty"]); add(["x", "y"], ["empty", "inc"]); add(["y", "x"], ["shuf", "empty"])
     add(["grid_mapping"], ["inc"]); add(["grid_mapping"], ["shuf"])
+    # two LONG axes (12 labels decreasing, 9 increasing): size thresholds behind which a "fast path for long ordered axes" could hide
+    LAB["x"]["long_dec"] = ("i", list(range(120, 0, -10)))
+    LAB["x"]["long_inc"] = ("i", list(range(10, 100, 10)))
+    add(["x"], ["long_dec"]); add(["x"], ["long_inc"])
     return P
 
 
